@@ -235,4 +235,20 @@ def probe_c04(oblig, tier, seed):
     return probe_c08(oblig, tier, seed)
 
 
-PROBES = {'C08': probe_c08, 'C02': probe_c02, 'C04': probe_c04, 'C19': probe_c19, 'C12': probe_c12, 'C01': probe_c01, 'C13': probe_c01, 'C05': probe_c05, 'C03': probe_c03, 'C06': probe_c06}
+def probe_c09(oblig, tier, seed):
+    cases = [('export HOME=/nonexistent-xyz; cd; echo rc=$?', 'rc=1\n'), ('cd /nonexistent-xyz; echo rc=$?', 'rc=1\n'),
+             ('A=1; echo $A; sh -c "echo [\\$A]"', '1\n[]\n'), ('export A=1; A=2; sh -c "echo [\\$A]"', '[2]\n'),
+             ('A=1 sh -c "echo [\\$A]"; echo [$A]', '[1]\n[]\n'), ('export A=1; unset A; echo [$A]; sh -c "echo [\\$A]"', '[]\n[]\n'),
+             ('mkdir d1 d2; cd d1; cd ../d2; cd -; basename $PWD', 'd1\n'), ('mkdir d1; cd d1; cd /nonexistent-xyz; basename $PWD', 'd1\n'),
+             ('read a b c <<< "1 2 3 4"; echo "$a|$b|$c"', '1|2|3 4\n')]
+    tried = 0
+    for line, out in cases:
+        w = {'line': line, 'expect_stdout': out, 'timeout': 8}
+        tried += 1
+        bad, detail = W.violates(w, W.observe(w))
+        if bad:
+            return _found(w, detail)
+    return {'found': False, 'tried': tried}
+
+
+PROBES = {'C09': probe_c09, 'C08': probe_c08, 'C02': probe_c02, 'C04': probe_c04, 'C19': probe_c19, 'C12': probe_c12, 'C01': probe_c01, 'C13': probe_c01, 'C05': probe_c05, 'C03': probe_c03, 'C06': probe_c06}
